@@ -47,6 +47,12 @@
                                                                  inband_host_faithful, inband_exit_admissible,
                                                                  inband_rc_any_chunking(_index), inband_end_to_end(_max)
                                                                  (composed with the relay model of C05/C06 and cbuf of C13)
+                                                                 through the REAL transport's handshake (xrcmd.c reads exactly one
+                                                                 status byte; Dsh/ExitHandshake.lean): rsh_handshake_any_chunking,
+                                                                 rsh_handshake_faithful (the marker survives sharing a read with
+                                                                 the status byte), rsh_buffered_handshake_witness (class C08-14)
+  "-S" x "-k" x a target that fails WITHOUT a return code        rsh_denied_Sk_exit1 (denied rsh target: failed, rc 0, yet -S -k
+                                                                 exits 1 wherever it stands; class C08-13), rsh_denied_S_exit254
   quantifier "or out-of-band (child wait status)"                exec_exit_admissible
   the whole statement, both channels                             faithful_exit_admissible
 
@@ -92,6 +98,7 @@ import PdshVerif.Opt.Command
 import PdshVerif.Dsh.ExitKillLemmas
 import PdshVerif.Dsh.ExitRefuse
 import PdshVerif.Dsh.ExitChld
+import PdshVerif.Dsh.ExitHandshake
 
 namespace PdshVerif.C08
 open PdshVerif PdshVerif.Dsh PdshVerif.Dsh.Exit
@@ -993,5 +1000,56 @@ theorem kill_early_death_witness :
   decide
 
 end KillSchedules
+
+/-! ## the in-band channel through the real transport's handshake (Dsh/ExitHandshake.lean) -/
+
+/-- however the rsh server's answer (status byte, then the command's output) is cut into read()s, the relay is handed
+    the same bytes: xrcmd consumes exactly the status byte -/
+theorem rsh_handshake_any_chunking (cs₁ cs₂ : List Str) (h : cs₁.flatten = cs₂.flatten) :
+    afterHandshake cs₁ = afterHandshake cs₂ := handshake_any_chunking cs₁ cs₂ h
+
+/-- repaired in-band channel (D9 + LATE) BEHIND THE HANDSHAKE: for a command that ran, in every chunking of
+    `status byte 0 ++ output ++ marker line ++ later lines` -- the marker line sharing a read() with the status byte
+    included -- what the -S loop sees of the target is faithful to its outcome -/
+theorem rsh_handshake_faithful (fx : Fixes) (hd9 : fx.d9 = true) (hl : fx.late = true) (o : Outcome)
+    (hok : okOutcome o) (hran : ∃ n, o = .exited n ∨ o = .killed n) (x : InbandData) (hx : x.ok) (cs : List Str)
+    (hcs : cs.flatten = NUL :: (inbandScript x.out.flatten x.pre x.late.flatten o).stdout) :
+    Faithful o (hostOf fx (rshScript cs)) := by
+  have : rshScript cs = inbandScript x.out.flatten x.pre x.late.flatten o := by
+    obtain ⟨n, rfl | rfl⟩ := hran <;> exact rshScript_eq cs _ hcs rfl rfl rfl rfl
+  rw [this]
+  exact inband_host_faithful fx hd9 hl o hok x hx
+
+/-- the class of the seeded change C08-14: a handshake that keeps only the first byte of what one read() returned makes
+    the relayed bytes depend on the cut; the real one does not -/
+theorem rsh_buffered_handshake_witness :
+    ([[NUL, '3', NL]] : List Str).flatten = ([[NUL], ['3', NL]] : List Str).flatten ∧
+    afterHandshakeBuffered [[NUL, '3', NL]] = some [] ∧
+    afterHandshakeBuffered [[NUL], ['3', NL]] = some ['3', NL] ∧
+    afterHandshake [[NUL, '3', NL]] = some ['3', NL] ∧
+    afterHandshake [[NUL], ['3', NL]] = some ['3', NL] := buffered_depends_on_chunking
+
+/-- -S x -k x A TARGET THAT FAILS WITHOUT ANY RETURN CODE (a denied rsh target: state failed, rc 0): the run ends with 1,
+    with or without -S, wherever the target stands, in every chunking of the server's refusal (any variant) -/
+theorem rsh_denied_Sk_exit1 (fx : Fixes) (S : Bool) (cs : List Str) (c : Char) (txt : Str) (hc : c ≠ NUL)
+    (h : cs.flatten = c :: txt) (before after : List Host) :
+    (hostOf fx (rshScript cs)).rc = 0 ∧
+    mainExit fx ⟨S, true⟩ (.started (before ++ hostOf fx (rshScript cs) :: after)) = 1 := by
+  have hh := rshScript_denied fx cs c txt hc h
+  refine ⟨by rw [hh], ?_⟩
+  apply k_any_failure_nonzero
+  exact ⟨hostOf fx (rshScript cs), by simp, by rw [hh]; decide⟩
+
+/-- ... and with -S alone a denied target alone gives RC_FAILED (254) -/
+theorem rsh_denied_S_exit254 (fx : Fixes) (cs : List Str) (c : Char) (txt : Str) (hc : c ≠ NUL)
+    (h : cs.flatten = c :: txt) :
+    mainExit fx ⟨true, false⟩ (.started [hostOf fx (rshScript cs)]) = 254 := by
+  rw [rshScript_denied fx cs c txt hc h]
+  cases fx with
+  | mk d7 d8 d9 late canc => cases d7 <;> cases d8 <;> cases d9 <;> cases late <;> cases canc <;> decide
+
+/-- non-vacuity: a refusal `\x01 Permission denied.` cut into three pieces -/
+example : ([[Char.ofNat 1], ['P', 'e'], ['r', NL]] : List Str).flatten = Char.ofNat 1 :: ['P', 'e', 'r', NL] ∧
+    Char.ofNat 1 ≠ NUL := by decide
 
 end PdshVerif.C08
